@@ -722,6 +722,8 @@ def run(ctx, tier):
     results += strict_guard(ctx)
     results += check_counts_runs(ctx)
     results += map_whole_file(ctx)
+    import c08
+    results += c08.iterator_overrides(ctx, rule='C16.iterator-overrides')
     results += grow(ctx)
     results += no_pow2_arith(ctx)
     results += remap_always(ctx)
